@@ -42,6 +42,37 @@ CHECKS = {
         "front located at mu*xi = cs^2(T) and crossed with energy-flux continuity as the "
         "property states; weak shocks use the ln v form of the same reference equations",
         "DESIGN.md §4 C03"),
+    "C06": (
+        "postcondition monitor on every findMatching result (admissibility + classification "
+        "inequalities against the closed-form c_b(T-)), independent Chapman-Jouguet oracle "
+        "(v-^2 = c_b^2 on the detonation junction), and a range-cut workload deciding "
+        "fastestDeflag()/slowestDeton() against the velocity at which the cut is reached",
+        "Runtime monitoring of ~1600 (quick) / ~30000 (thorough) classified matchings of both "
+        "solvers, ~100/2000 Jouguet oracles and ~45/900 range-cut configurations in either "
+        "phase. Held on the executions observed except for the listed known finding.",
+        "closed-form EOS; cut workload judged only where the real matching is monotone up to "
+        "the cut (others counted)",
+        "DESIGN.md §4 C06"),
+    "C13": (
+        "reference-model monitor on the real getDeltas/deltaToTmunu: deviations constructed "
+        "so that the defining momentum integral is pi^2 c00(Q) by Chebyshev algebra "
+        "(numpy.polynomial), explicit 4x4 Lorentz boost for the stress tensor, linearity; "
+        "construction self-tested against dblquad/tplquad every run",
+        "Runtime monitoring over all odd N 3..13 (+15,19,25), several M, both grid classes, "
+        "momentum scales over four decades, mass profiles massless..10T, both statistics and "
+        "all input bases; per-case rounding bounds. Held on the executions observed.",
+        "exactness class of Gauss-Chebyshev-Lobatto quadrature as stated in the property; "
+        "smooth non-polynomial deviations are recorded, not judged",
+        "DESIGN.md §4 C13"),
+    "C16": (
+        "reference-algebra monitor: every changeBasis/evaluate/derivative/integrate/matrix "
+        "result of the real Polynomial compared with numpy.polynomial.chebyshev series; "
+        "recording wrappers on Polynomial.chebyshev/cardinal check each internal basis value",
+        "Exhaustive over M,N in 2..12 (plus samples to 64), three directions, endpoints on/off, "
+        "both bases, ranks 1-4 with mixed Array axes, every admissible degree; metamorphic "
+        "axis-independence and linearity. Held on the executions observed.",
+        "float64 Chebyshev algebra of numpy as reference; tolerance K eps g(n) sum|c_k|",
+        "DESIGN.md §4 C16"),
 }
 
 ALL = [f"C{i:02d}" for i in range(1, 21)]
